@@ -155,7 +155,18 @@ def checked(fa, s):
         errs = [t for t in vals if is_agg(t, "Err") or (t[0] == "call" and t[2] in FROM_RESIDUAL)]
         if errs and not fa.can_reach(e["err"], e["ok"]) and e["err"] != e["ok"]:
             return {"branch": None, "ok": e["ok"], "err": e["err"]}
+    # the (awaited) Result is itself the function's result: `return f().await;` / tail expression —
+    # the caller sees the error, nothing else of this function runs after it
+    for bb, pos, t in ret_assigns(fa):
+        if s in call_root_bb(t) and all(r[0] == "call" and r[1] == s for r in roots(t)):
+            after = fa.reach(bb, include_src=True)
+            if not any(fa.blocks[x].term["k"] == "call" and x != s and not _is_cleanup_call(fa.blocks[x].term) for x in after if x != bb or pos is not None):
+                return {"branch": None, "ok": bb, "err": bb, "how": "returned"}
     return None
+
+
+def _is_cleanup_call(t):
+    return (t.get("callee") or "").startswith(("std::mem::drop", "core::mem::drop"))
 
 
 def _checked_q(fa, s):
